@@ -3,4 +3,5 @@
 set -e
 cd "$(dirname "$0")"
 /venv/bin/python tools/gen_tables.py
+/venv/bin/python tools/gen_sites.py
 cd lean && lake build OrqModel orqdriver
